@@ -49,6 +49,7 @@ import (
 	"github.com/golang/protobuf/proto"
 	"github.com/google/uuid"
 	"github.com/hashicorp/memberlist"
+	"github.com/vx-labs/cluster/membership"
 	"github.com/vx-labs/commitlog/stream"
 	"github.com/vx-labs/mqtt-protocol/packet"
 	"github.com/vx-labs/wasp/v4/verifrt"
@@ -221,14 +222,14 @@ func (r *rpcTransport) Call(id uint64, f func(*grpc.ClientConn) error) error {
 		w.rpcs = append(w.rpcs, rpcRec{Src: r.src, Dst: dst, Stamp: atomic.AddInt64(&w.stamp, 1), AtMs: w.nowMs(), Tag: tag, Outcome: "disabled"})
 		w.disabledCalls = append(w.disabledCalls, rpcRec{Src: r.src, Dst: dst, AtMs: w.nowMs(), Tag: tag})
 		w.mu.Unlock()
-		return errors.New("peer disabled")
+		return membership.ErrPeerDisabled // the real pool's own error value
 	}
 	if !known {
 		w.statAdd("rpc.peer_not_found", 1)
 		w.mu.Lock()
 		w.rpcs = append(w.rpcs, rpcRec{Src: r.src, Dst: dst, Stamp: atomic.AddInt64(&w.stamp, 1), AtMs: w.nowMs(), Outcome: "peer-not-found"})
 		w.mu.Unlock()
-		return errors.New("peer not found")
+		return membership.ErrPeerNotFound
 	}
 	return f(w.conns[[2]int{r.src, dst}])
 }
@@ -377,67 +378,68 @@ func (h *evHeap) Pop() interface{} {
 // world
 
 type world struct {
-	t             *testing.T
-	c             *Case
-	o             *Outcome
-	start         time.Time
-	nodes         []*simNode
-	clients       map[int]*simClient
-	past          []*simClient // earlier epochs of reconnecting clients
-	conns         map[[2]int]*grpc.ClientConn
-	events        evHeap
-	seq           uint64
-	mu            sync.Mutex
-	obs           []Obs
-	appends       []appendRec
-	rpcs          []rpcRec
-	stamp         int64
-	blocked       map[[2]int]bool
-	rpcMode       map[[2]int]string
-	rpcN          map[[2]int]int
-	gossipN       map[[2]int]int
-	gsplitN       map[int]int
-	rpcTagN       map[string]int
-	preListings   map[int][]string
-	lossAtSettle  int64        // datagrams lost up to the last anti-entropy round (which repaired them)
-	heldIDs       map[int]bool // identifiers the harness took out of node 0's writer pool (C06)
-	curStep       int
-	hist          []string
-	orderH        []string
-	stateH        []string
-	seed          uint64
-	stats         map[string]int64
-	clock         int64
-	authTab       []authRow
-	dataDir       string
-	settles       []settleRec
-	faultsActive  bool
-	inSettle      bool
-	stepAt        []int64 // sim time at which each scenario step was applied
-	stepEnd       []int64
-	loadErr       string
-	notify        chan struct{}
-	forcedDelay   map[int]int64
-	appLogged     int
-	rpcStarted    []rpcRec
-	disabledCalls []rpcRec
-	goTag         map[int64]string
-	viewAt        map[int][]string // publish step -> listing of the publisher's node at that instant
-	pingKnow      map[int64]pingKnowledge
-	evOrd         int64                   // ordinal of the event being applied
-	stepOrd       []int64                 // ordinal at which each scenario step was applied
-	recv          []recvRec               // every replicated-state update a node emitted or was given
-	knownAtStop   map[int]map[string]bool // survivor -> session ids it listed when a node was stopped
-	stopAt        map[int]int64
-	rpcLogged     int
-	leaveAt       map[[2]int]int64 // (observer, dead) -> time the observer was told
-	lateGossip    map[[2]int]bool  // (observer, dead): a datagram sent by dead reached observer after that
-	authh         wasp.AuthenticationHandler
-	restartAt     map[int]int64 // node -> time its process came up again (same id, same data directory)
-	restartQuiet  map[int]bool  // node -> its peers never noticed that it was gone
-	incarn        map[int]int   // node -> number of times its process has been started again
-	dispatchStamp map[string]int64 // payload tag -> stamp at which a publish worker took the message up
-	toldEver      map[[2]int]bool
+	t                  *testing.T
+	c                  *Case
+	o                  *Outcome
+	start              time.Time
+	nodes              []*simNode
+	clients            map[int]*simClient
+	past               []*simClient // earlier epochs of reconnecting clients
+	conns              map[[2]int]*grpc.ClientConn
+	events             evHeap
+	seq                uint64
+	mu                 sync.Mutex
+	obs                []Obs
+	appends            []appendRec
+	rpcs               []rpcRec
+	stamp              int64
+	blocked            map[[2]int]bool
+	rpcMode            map[[2]int]string
+	rpcN               map[[2]int]int
+	gossipN            map[[2]int]int
+	gsplitN            map[int]int
+	rpcTagN            map[string]int
+	preListings        map[int][]string
+	lossAtSettle       int64        // datagrams lost up to the last anti-entropy round (which repaired them)
+	heldIDs            map[int]bool // identifiers the harness took out of node 0's writer pool (C06)
+	curStep            int
+	hist               []string
+	orderH             []string
+	stateH             []string
+	seed               uint64
+	stats              map[string]int64
+	clock              int64
+	authTab            []authRow
+	dataDir            string
+	settles            []settleRec
+	faultsActive       bool
+	inSettle           bool
+	stepAt             []int64 // sim time at which each scenario step was applied
+	stepEnd            []int64
+	loadErr            string
+	notify             chan struct{}
+	forcedDelay        map[int]int64
+	appLogged          int
+	rpcStarted         []rpcRec
+	disabledCalls      []rpcRec
+	goTag              map[int64]string
+	viewAt             map[int][]string // publish step -> listing of the publisher's node at that instant
+	pingKnow           map[int64]pingKnowledge
+	evOrd              int64                   // ordinal of the event being applied
+	stepOrd            []int64                 // ordinal at which each scenario step was applied
+	recv               []recvRec               // every replicated-state update a node emitted or was given
+	knownAtStop        map[int]map[string]bool // survivor -> session ids it listed when a node was stopped
+	stopAt             map[int]int64
+	rpcLogged          int
+	leaveAt            map[[2]int]int64 // (observer, dead) -> time the observer was told
+	lateGossip         map[[2]int]bool  // (observer, dead): a datagram sent by dead reached observer after that
+	authh              wasp.AuthenticationHandler
+	restartAt          map[int]int64    // node -> time its process came up again (same id, same data directory)
+	restartQuiet       map[int]bool     // node -> its peers never noticed that it was gone
+	incarn             map[int]int      // node -> number of times its process has been started again
+	dispatchStamp      map[string]int64 // payload tag -> stamp at which a publish worker took the message up
+	retainedUnrecorded []string
+	toldEver           map[[2]int]bool
 }
 
 type settleRec struct {
@@ -1102,6 +1104,14 @@ func newWorld(t *testing.T, c *Case, o *Outcome) *world {
 	}
 	for _, n := range w.nodes {
 		w.startNode(n, authh)
+	}
+	// memberlist reports every peer it meets, also the ones that were there first
+	for _, n := range w.nodes {
+		for _, p := range w.nodes {
+			if p != n {
+				n.members.NotifyGossipJoin(p.id)
+			}
+		}
 	}
 	w.quiesce()
 	// The brokers' periodic timers (100 ms log poller, 1 s expiry sweep) are anchored at this
